@@ -2,3 +2,4 @@
 from .replay import register_driver
 
 register_driver('controller.Notifications.', 'notifications.py')
+register_driver('merkle.', 'merkle.py')
